@@ -185,14 +185,14 @@ func newBase(kind string) (base afero.Fs, meta afero.Fs, cleanup func()) {
 }
 
 type crashResult struct {
-	Tours   int             `json:"tours"`
-	Points  int             `json:"crash_points"`
+	Tours    int            `json:"tours"`
+	Points   int            `json:"crash_points"`
 	Distinct map[string]int `json:"distinct_ops"`
-	Post    int             `json:"ended_in_post_state"`
-	Pre     int             `json:"ended_in_pre_state"`
-	Fails   []*crashFail    `json:"failures"`
-	NFail   int             `json:"n_failures"`
-	Samples []string        `json:"samples"`
+	Post     int            `json:"ended_in_post_state"`
+	Pre      int            `json:"ended_in_pre_state"`
+	Fails    []*crashFail   `json:"failures"`
+	NFail    int            `json:"n_failures"`
+	Samples  []string       `json:"samples"`
 }
 
 type crashFail struct {
